@@ -2376,16 +2376,45 @@ Translator.srcc_module_const = srcc_module_const
 
 
 def srcc_normalize(f):
-    """a copy of function f in which a `for` target that the loop body assigns again is renamed: `for x in e: body` ->
-    `for x__item in e: x = x__item; body` (the same behaviour; the translator's loop variable must not be rebound)"""
+    """a copy of function f in which a `for` target that the loop body assigns again, or that several loops of f share, is renamed:
+    `for x in e: body` -> `for x__item in e: x = x__item; body` (the same behaviour as long as x is not read after the loop
+    before being assigned again -- such a read finds x unbound and is rejected; the translator's loop variable must not be rebound)"""
     import copy
     f = copy.deepcopy(f)
-    for n in ast.walk(f):
-        if isinstance(n, ast.For) and isinstance(n.target, ast.Name) and n.target.id in assigned_names(n.body):
+    targets = [n.target.id for n in ast.walk(f) if isinstance(n, ast.For) and isinstance(n.target, ast.Name)]
+    seen = {}
+    for n in sorted((n for n in ast.walk(f) if isinstance(n, ast.For)), key=lambda n: (n.lineno, n.col_offset)):
+        if isinstance(n, ast.For) and isinstance(n.target, ast.Name) and (n.target.id in assigned_names(n.body) or targets.count(n.target.id) > 1):
             x = n.target.id
-            n.target = ast.copy_location(ast.Name(id=x + "__item", ctx=ast.Store()), n.target)
-            first = ast.Assign(targets=[ast.Name(id=x, ctx=ast.Store())], value=ast.Name(id=x + "__item", ctx=ast.Load()))
+            seen[x] = seen.get(x, 0) + 1
+            item = x + "__item" + ("%d" % seen[x] if seen[x] > 1 else "")
+            n.target = ast.copy_location(ast.Name(id=item, ctx=ast.Store()), n.target)
+            first = ast.Assign(targets=[ast.Name(id=x, ctx=ast.Store())], value=ast.Name(id=item, ctx=ast.Load()))
             n.body.insert(0, ast.fix_missing_locations(ast.copy_location(first, n.body[0])))
+
+    def ispop(c):
+        return (isinstance(c, ast.Call) and isinstance(c.func, ast.Attribute) and c.func.attr == "pop" and isinstance(c.func.value, ast.Name)
+                and not c.args and not c.keywords)
+
+    def hoist_pop(stmts):
+        """`x = g(l.pop())` (the pop is the only argument of the outermost call, hence evaluated first) ->
+        `l__popped = l.pop(); x = g(l__popped)`"""
+        out = []
+        for st in stmts:
+            for field in ("body", "orelse", "finalbody"):
+                if isinstance(getattr(st, field, None), list) and not isinstance(st, (ast.FunctionDef, ast.ClassDef)):
+                    setattr(st, field, hoist_pop(getattr(st, field)))
+            for h in getattr(st, "handlers", []):
+                h.body = hoist_pop(h.body)
+            v = st.value if isinstance(st, ast.Assign) else None
+            if isinstance(v, ast.Call) and isinstance(v.func, ast.Name) and len(v.args) == 1 and not v.keywords and ispop(v.args[0]):
+                tmp = v.args[0].func.value.id + "__popped"
+                out.append(ast.fix_missing_locations(ast.copy_location(
+                    ast.Assign(targets=[ast.Name(id=tmp, ctx=ast.Store())], value=v.args[0]), st)))
+                v.args[0] = ast.copy_location(ast.Name(id=tmp, ctx=ast.Load()), v.args[0])
+            out.append(st)
+        return out
+    f.body = hoist_pop(f.body)
     return f
 
 
@@ -2478,6 +2507,11 @@ def srcc_rhs(self, node, env):
         return self.tr.srcc_module_const(node.id, node)
     if isinstance(node, ast.Constant) and isinstance(node.value, str) and node.value == "":
         return ("str", "\"\"%string")
+    if isinstance(node, ast.List) and not node.elts:
+        cell = Cell()                                       # []: its element type is written out once it is known (Fn.text)
+        cells = self.__dict__.setdefault("srcc_cells", [])
+        cells.append(cell)
+        return (("list", cell), "(@nil #CELL%d#)" % (len(cells) - 1))
     if isinstance(node, ast.BinOp) and isinstance(node.op, ast.Mod) and isinstance(node.left, ast.Constant) and isinstance(node.left.value, str):
         return srcc_format(self, node, env)
     if isinstance(node, ast.BinOp) and isinstance(node.op, (ast.Add, ast.Mult)):
@@ -2490,6 +2524,30 @@ def srcc_rhs(self, node, env):
         self.restore(snap)
         self.pre = pre0
         return None
+    if isinstance(node, ast.BoolOp) and len(node.values) == 2 and self.nohoist == 0:
+        # `a and b` / `a or b` where evaluating b can raise: b is evaluated only when a does not decide
+        snap, pre0 = self.snapshot(), list(self.pre)
+        try:
+            _rhs0(self, node, env)
+            simple = True
+        except Untranslatable:
+            simple = False
+        self.restore(snap)
+        self.pre = pre0
+        if not simple:
+            a = self.bool_(node.values[0], env)
+            saved, self.pre = self.pre, []
+            try:
+                b = self.bool_(node.values[1], env)
+            except Untranslatable:
+                self.pre = saved
+                self.restore(snap)
+                self.pre = pre0
+                return None
+            inner, self.pre = self.pre, saved
+            body = self.render(self.wrap(inner, ("ret", "bool", b, False)), "     ", True)
+            isand = isinstance(node.op, ast.And)
+            return ("out", "bool", "(if %s then\n     %s\n   else %s)" % (a, body if isand else "Ok true", "Ok false" if isand else "(%s)" % body))
     if isinstance(node, ast.BoolOp) and isinstance(node.op, ast.Or) and len(node.values) == 2:
         snap, pre0 = self.snapshot(), list(self.pre)
         ta, a = self.ex(node.values[0], env)
@@ -2505,7 +2563,10 @@ def srcc_rhs(self, node, env):
         except Untranslatable:
             ta = tb = None
         if ta == "str" and tb == "str":         # text in text: substring test
-            return ("bool", ("(py_str_in %s %s)" if isinstance(node.ops[0], ast.In) else "(negb (py_str_in %s %s))") % (a, b))
+            lit = node.left.value if isinstance(node.left, ast.Constant) else None
+            t = ("(py_contains_dc %s)" % b if lit == "::" else "(contains_char %s %s)" % (srcc_charlit(lit, node), b)
+                 if isinstance(lit, str) and len(lit) == 1 and 32 <= ord(lit) < 127 and lit != '"' else "(py_str_in %s %s)" % (a, b))
+            return ("bool", t if isinstance(node.ops[0], ast.In) else "(negb %s)" % t)
         self.restore(snap)
         self.pre = pre0
         return None
@@ -2701,6 +2762,8 @@ def srcc_call(self, node, env):
                 bad(node, "split() by something other than a non-empty text literal")
             if len(sep.value) == 1:
                 return (("list", Cell("str")), "(split %s %s)" % (srcc_charlit(sep.value, node), t))
+            if sep.value == "::":
+                return (("list", Cell("str")), "(py_split_dc %s)" % t)
             return (("list", Cell("str")), "(py_split %s %s)" % (srcc_strlit(sep.value, node), t))
         bad(node, "%s() with an unsupported argument list" % f.attr)
     if isinstance(f, ast.Name) and f.id == "_bytes_join" and f.id not in env and self.mod.imports.get(f.id) == "netaddr.compat._bytes_join" \
@@ -2792,6 +2855,47 @@ Fn.bool_ = _srcc_bool
 
 
 # ---- statements
+def srcc_try_except(self, s, rest, env, k, after):
+    """Fn.try_except with loops allowed inside the protected body (no return / break / continue / nested try in it): the loops
+    become Fixpoints as usual and their calls sit inside py_except"""
+    h = s.handlers[0]
+    if (s.orelse or s.finalbody or not isinstance(h.type, ast.Name) or h.type.id not in EXN or h.type.id in env
+            or self.mod.toplevel(h.type.id) and h.type.id not in self.mod.imports or env["@mut"]):
+        bad(s, "try statement other than `try: <assignments, if, raise, loops> / except E1: raise E2(..)`")
+    if h.name and any(isinstance(n, ast.Name) and n.id == h.name for st in rest + after for n in ast.walk(st)):
+        bad(s, "exception variable %s used after the handler" % h.name)
+    e2 = self.block(h.body, {**env, "@break": None}, None, [])[1]
+    names, ends = assigned_names(s.body), []
+
+    def end(e):
+        ends.append(e)
+        return ("jret", e)
+    body = self.block(s.body, env, end, rest + after)
+    exported = [x for x in names if ends and all(x in e and is_value(e[x][0]) for e in ends)]
+    for key, val in env.items():
+        if not key.startswith("@") and key not in exported and any(e.get(key) != val for e in ends):
+            if key in loaded_names(rest + after):
+                bad(s, "%s is rebound inside try to something that is no Coq value and read afterwards" % key)
+    env = dict(env)
+    for x in names:
+        env.pop(x, None)
+    cns = []
+    for x in exported:
+        for e in ends[1:]:
+            unify(s, e[x][0], ends[0][x][0], "ends of the try body")
+        cn = self.coqname(s, x)
+        cns.append(cn)
+        env[x] = (ends[0][x][0], cn)
+    env["@taint"] = frozenset().union(env["@taint"], *[e["@taint"] for e in ends]) - (set(names) - set(exported))
+
+    def close(ir):
+        if ir[0] == "jret" and isinstance(ir[1], dict):
+            return ("jret", tuple_term([ir[1][x][1] for x in exported]))
+        return tuple(close(x) if isinstance(x, tuple) and x and isinstance(x[0], str) else
+                     [(kd, ns, close(sub)) for kd, ns, sub in x] if isinstance(x, list) else x for x in ir)
+    return ("try", h.type.id, e2, pattern(cns), close(body), self.block(rest, env, k, after))
+
+
 def srcc_stmt(self, s, rest, env, k, after):
     go = lambda e: self.block(rest, e, k, after)
     if isinstance(s, ast.Raise) and isinstance(s.exc, ast.Name) and env.get(s.exc.id, ("",))[0] == "cls" and env[s.exc.id][1] in EXN and not s.cause:
@@ -2809,6 +2913,27 @@ def srcc_stmt(self, s, rest, env, k, after):
         env = dict(env)
         env[x] = ("cls", s.value.func.id)
         return go(env)
+    if (isinstance(s, ast.Assign) and len(s.targets) == 1 and isinstance(s.targets[0], ast.Tuple) and 2 <= len(s.targets[0].elts) <= 4
+            and all(isinstance(x, ast.Name) and x.id != "_" for x in s.targets[0].elts)):
+        snap, pre0 = self.snapshot(), list(self.pre)
+        ty, t = self.ex(s.value, env)
+        elem = ty[1].find().t if is_list(ty) else None
+        if elem is not None and is_value(elem):
+            # a, b = <list>: ValueError unless the list has exactly that many items
+            pre, names = self.take_pre(), []
+            for x in s.targets[0].elts:
+                cn, env = self.bind_local(x, x.id, elem, env, s.value)
+                names.append(cn)
+            return self.wrap(pre, ("bind", pattern(names), "(match %s with [%s] => Ok %s | _ => Raise ValueError end)" % (
+                t, "; ".join(names), tuple_term(names)), go(env)))
+        self.restore(snap)
+        self.pre = pre0
+    if (isinstance(s, ast.Try) and len(s.handlers) == 1 and len(s.handlers[0].body) == 1 and isinstance(s.handlers[0].body[0], ast.Raise)
+            and any(isinstance(n, (ast.For, ast.While)) for st in s.body for n in ast.walk(st))
+            and not any(isinstance(n, (ast.Return, ast.Break, ast.Continue, ast.Try)) for st in s.body for n in ast.walk(st))):
+        # try: <assignments, if, raise, loops without return / break / continue> / except E1: raise E2: as try_except; the loops
+        # are Fixpoints called inside the protected body
+        return srcc_try_except(self, s, rest, env, k, after)
     if isinstance(s, ast.Expr) and isinstance(s.value, ast.Call) and isinstance(s.value.func, ast.Attribute) and isinstance(
             s.value.func.value, ast.Name) and is_list(env.get(s.value.func.value.id, ("",))[0]) and not s.value.keywords:
         v, l = s.value, s.value.func.value.id
@@ -2895,3 +3020,17 @@ def _srcc_listexpr(self, node, env):
 
 
 Fn.listexpr = _srcc_listexpr
+
+
+_fn_text0 = Fn.text
+
+
+def _srcc_fn_text(self):
+    t = _fn_text0(self)
+    for i, cell in enumerate(self.__dict__.get("srcc_cells", [])):
+        e = cell.find().t
+        t = t.replace("#CELL%d#" % i, coqty(e, self.f) if e is not None else "unit")     # never used: any type does
+    return t
+
+
+Fn.text = _srcc_fn_text
